@@ -17,6 +17,14 @@ CHECKS = {
    technique="CrossHair/z3 on the integer instantiation (unbounded values, exact ties) + own real-valued symbolic executor (z3 nonlinear reals for ppm), brute-force matcher as oracle",
    text="get_matched_indices, match_spectra (all/closest/largest), get_fragment_matches, get_match_coverage and get_matched_intensity_percentage are executed symbolically: with unbounded symbolic integers (list lengths <=3x3 quick, <=4x4 thorough) under CrossHair, and with real-valued m/z, intensities and absolute or ppm tolerance under E2; every path's result is compared with the quadratic brute-force window. Ties at the inclusive tolerance edge and window overlaps are exactly the rare inputs a solver finds and sampling does not.",
    note="Assumes sorted input for match_spectra (documented), tolerance >=0, m/z >0 for ppm; floats read as reals in E2 (S5) so inclusive-edge ties are claimed for the integer instantiation. Outside: binomial_score (math.comb/**), lists longer than the bound."),
+ "C04": dict(engine="E2 symreal", design_ref="DESIGN.md §3 C04",
+   technique="symbolic execution of fragment()/Fragmenter/mass() on z3-Real-carrying floats; per shape one SMT query over all residue, offset-table and modification values",
+   text="fragment() runs natively with residue masses, the per-ion-type neutral and ion adjustment tables, proton, neutron and modification values as solver variables; for ~1400 (quick) combinations of peptide shape, ion-type set, charge list, isotope list and loss rules the ion list must be exactly the expected index set, each ion's mass/neutral mass/mz must equal mass() of the ion's own serialized sequence and an independent sum of parts for all values of the variables, and the other five return types and the cached Fragmenter must be projections of the same list.",
+   note="Assumes S4, S5, S7; loss values and regexes are concrete (hashed into a set by the library); the 'n' ion type's zero adjustment is kept real. Known finding C04-F2 (static N-Term/C-Term rules counted per residue) is reported, its arithmetic assumed in the re-run. Outside: precision!=None, peptides longer than 6, isotope labels."),
+ "C05": dict(engine="E2 symreal", design_ref="DESIGN.md §3 C05",
+   technique="symbolic execution of fragment()/mass() with symbolic residue and modification masses; relations of the property text asserted against offsets computed from an independent NIST table; z3 per shape",
+   text="With residue masses and modification values symbolic and the library's offset tables real, z3 is asked for masses violating any relation of the property text (b_i+y_(n-i)=M+2p; a,c relative to b; x,z relative to y; immonium; the nine internal types; (k-1) protons per extra charge; consecutive b/y differences = the residue with its own modifications; the remainder of b_1/y_1 independent of every symbol) at 1e-5 Da, with CO, NH3, H2, H2O and the proton taken from vf/oracles.py, never from /repo. A wrong entry in the composition tables is thus a counterexample for every peptide of the shape.",
+   note="Assumes S4 (only residue masses symbolic), S5. Known findings C05-F1 (ax/az/bx/bz +1 H) and C05-F2 (average-mode charge carrier) are reported and their arithmetic assumed in the re-run. Outside: peptides longer than 7."),
 }
 
 NOT_APPLICABLE = {}
